@@ -5,6 +5,7 @@ mod astsexp;
 mod devtools;
 mod exec;
 mod progen;
+mod progen_c01;
 mod model;
 mod props;
 mod report;
